@@ -64,7 +64,7 @@ def run_one(ctx, scn, impls=("sync", "async"), oracle_fns=(), compare=True, deta
 def check_scenarios(ctx, scns, oracle_fns, family, impls=("sync", "async"), twins_are_property=False):
     rep = ctx.report
     for scn in scns:
-        pfs, dis, by_impl = run_one(ctx, scn, impls, oracle_fns, compare=not scn.get("oracle_only"))
+        pfs, dis, by_impl = run_one(ctx, scn, impls, oracle_fns, compare=not scn.get("oracle_only") and not ctx.searching)
         rep.evaluations += len(by_impl)
         rep.traces_validated += len(by_impl)
         rep.count("family", family)
@@ -84,7 +84,7 @@ def check_scenarios(ctx, scns, oracle_fns, family, impls=("sync", "async"), twin
                 rep.prop_failures.append(dict(d, case=scen.enc(scn), family=family, signature=dict(kind="twins-differ")))
             else:
                 rep.disagreements.append(dict(d, case=scen.enc(scn), family=family))
-        if len(rep.prop_failures) > 10 or len(rep.disagreements) > 10:
+        if len(rep.prop_failures) > 10 or (len(rep.disagreements) > 10 and not ctx.searching):
             break
 
 
